@@ -227,6 +227,8 @@ impl Store {
     /// As such, there is also no guarantee that the data you see is
     /// already persisted.
     fn tables(&mut self) -> Result<&Tables<'_>> {
+        #[cfg(feature = "verif-hooks")]
+        self.verif_on_access();
         let guard = &mut self.transaction;
         let tables = match std::mem::take(guard) {
             CurrentTransaction::None => {
@@ -264,6 +266,8 @@ impl Store {
     /// To ensure that the data is persisted, acquire a snapshot of the database
     /// or call flush.
     fn modify<T>(&mut self, f: impl FnOnce(&mut Tables) -> Result<T>) -> Result<T> {
+        #[cfg(feature = "verif-hooks")]
+        self.verif_on_access();
         let guard = &mut self.transaction;
         let tables = match std::mem::take(guard) {
             CurrentTransaction::None => {
@@ -295,6 +299,19 @@ impl Store {
 }
 
 type PeersIter = std::vec::IntoIter<PeerIdBytes>;
+
+#[cfg(feature = "verif-hooks")]
+impl Store {
+    fn verif_on_access(&mut self) {
+        if crate::verif::on_store_access() {
+            if let CurrentTransaction::Write(w) = &mut self.transaction {
+                if let Some(t) = w.since.checked_sub(MAX_COMMIT_DELAY * 2) {
+                    w.since = t;
+                }
+            }
+        }
+    }
+}
 
 impl Store {
     /// Create a new replica for `namespace` and persist in this store.
